@@ -53,7 +53,7 @@ def config(draw, reuse=None):
     return dict(groups=groups, aliases=aliases, order=list(order), crlf=draw(st.booleans()),
                 alias_typedef=bool(aliases) or draw(st.booleans()), masktype_rows=draw(st.booleans()),
                 cols=draw(st.sampled_from(['standard', 'standard', 'alias-swapped', 'bits-swapped', 'both-swapped'])),
-                final_newline=draw(st.sampled_from([True, True, False])))
+                final_newline=draw(st.sampled_from([True, True, False])), indent=draw(st.sampled_from([0, 0, 1, 2])), nodesc=draw(st.sampled_from([0, 0, 1, 3])))
 
 
 def mixcase(draw, s):
@@ -123,6 +123,16 @@ def render(cfg):
         rows.insert((7 * i) % (len(rows) + 1), 'masktype %s 64 "the %s group"' % (g['name'], g['name']))
     for j, (a, t) in enumerate(cfg['aliases']):
         rows.insert(min(3 * j + 1, len(rows)), 'maskalias %s %s "%s is a synonym for %s."' % ((a, t, a, t) if swap_alias else (t, a, a, t)))      # ascending positions: declaration order kept
+    # some rows indented (blanks / tab), some without the trailing description text
+    ind = cfg.get('indent', 0)
+    if ind:
+        rows = [(('  ', '\t', ' \t ')[(i + ind) % 3] + r) if (i + ind) % 3 != 2 else r for i, r in enumerate(rows)]
+    nd = cfg.get('nodesc', 0)
+    if nd:
+        def strip_desc(r):
+            q = r.find('"')
+            return r[:q].rstrip() if q > 0 else r
+        rows = [strip_desc(r) if (i + nd) % 4 == 0 else r for i, r in enumerate(rows)]
     rows.insert(len(rows) // 2, '#------------------------------------------------------------------------------')
     nl = '\r\n' if cfg['crlf'] else '\n'
     return nl.join(lines + rows) + (nl if cfg.get('final_newline', True) else '')
